@@ -12,7 +12,7 @@ import numpy as np
 
 from rv import core, zoo, monitors
 
-ANCHORS = ['FCSData._name_to_index', 'FCSData.__getitem__', 'FCSData.__setitem__', 'FCSData.__array_finalize__']      # functions the property is anchored in: never entered => inconclusive
+ANCHORS = ['FCSData.__getitem__', 'FCSData.__setitem__', 'FCSData.__array_finalize__']      # functions the property is anchored in: never entered => inconclusive
 LEVEL = 'exploration'
 LEVEL_TEXT = "Exhaustive enumeration of the must-support index grammar for small shapes against the executable model (ndarray + per-column records), chains of three indexings, assignment, and an alignment invariant hooked on __getitem__ that also fires inside NumPy's own indexing and the pipelines. Exploration (exhaustive over the key grammar for the listed shapes)."
 TECHNIQUE = 'trace comparison against an executable model (ndarray + per-column records) + alignment invariant hooked on __getitem__'
